@@ -299,8 +299,8 @@ def check_C01(ctx):
             continue
         pi, pm = impl.split(" "), model.split(" ")
         # rt lines: ok <bytes> <decoded value ...> <re-encoded identical 0|1>; the model's line is what a correct implementation prints
-        if pi[:2] != pm[:2] and pi[0] == "ok" and pm[0] == "ok":
-            continue     # different bytes: that is C02's finding, not a round-trip failure in itself
+        if pi[0] == "ok" and pm[0] == "ok" and pi[2:] == pm[2:]:
+            continue     # only the bytes differ, the round trip itself holds: that is C02's finding
         bad += 1
         if bad <= 5:
             what = "decoding the bytes Encode produced does not give back the (normalised) value, or re-encoding the decoded value gives other bytes"
@@ -373,10 +373,9 @@ def check_C05(ctx):
         return ctx.finish()
     # run in a child with an address-space limit so that a regression cannot take the sandbox down
     import resource
-    rc, rep, out, err = run_harness(["alloc", "-seed", str(ctx.seed), "-n", "40" if ctx.tier == "quick" else "600"], timeout=3000,
-                                    env={"GOMEMLIMIT": "3GiB"})
+    rc, rep, out, err = run_harness(["alloc", "-seed", str(ctx.seed), "-n", "40" if ctx.tier == "quick" else "600"], timeout=900)
     if rep is None:
-        ctx.violation("alloc-crash", {"what": "alloc suite crashed (out of memory is itself the violation: a Decode call exhausted the 3 GiB limit)",
+        ctx.violation("alloc-crash", {"what": "alloc suite crashed (out of memory is itself the violation: a Decode call exhausted memory or the time limit)",
                                       "replay": "harness/harness alloc -seed %d" % ctx.seed, "stderr": tail(err, 30)})
     else:
         ctx.cov["evaluations"] = rep["evaluations"]
